@@ -276,7 +276,14 @@ fn gen_body(r: &mut Rng, sc: &mut Scope, depth: usize, budget: &mut usize, calle
                         } else {
                             let ty = GLOBALS.iter().find(|g| g.0 == pn).map(|g| g.1).unwrap();
                             let cands = sc.of(ty);
-                            args.push(Arg::Rust(r.pick(&cands).to_string()));
+                            if ty == Ty::Str && r.chance(1, 4) {
+                                // a literal argument, possibly spanning several source lines: every byte
+                                // between the quotes (line breaks, indentation, blank lines, tabs) is the value
+                                let lits: &[&str] = &["\"lit\"", "\"Usage:\n    prog [options]\n\n      -v   <verbose>\"", "\"a  b\tc \"", "\"\"", "\" & \n\""];
+                                args.push(Arg::Rust(r.pick(lits).to_string()));
+                            } else {
+                                args.push(Arg::Rust(r.pick(&cands).to_string()));
+                            }
                         }
                     }
                     Node::Call { name: callee.fn_name(), args }
